@@ -29,19 +29,33 @@ def gen(tier, idx):
     ops = []
     for _ in range(n):
         op = r.choice(OPS)
-        k = r.randrange(5); v = r.randrange(50)
+        k = r.randrange(5); v = r.choice([0, 1, 2, 3, r.randrange(50), r.randrange(50)])
         if op in ('load', 'dump'):
             ops.append([op, [r.randrange(6) for _ in range(r.choice([1, 2, 3]))]])
         elif op in ('open', 'setarch'):
-            ops.append([op, [[r.randrange(5), r.randrange(50)] for _ in range(r.choice([0, 2]))]])
+            ops.append([op, [[r.randrange(5), r.choice([0, 1, 2, r.randrange(50)])] for _ in range(r.choice([0, 2]))]])
         else:
             ops.append([op, k, v])
-    pre_mem = [[r.randrange(5), r.randrange(50)] for _ in range(r.choice([0, 2]))]
-    pre_arch = [[r.randrange(5), r.randrange(50)] for _ in range(r.choice([0, 3]))]
+    pre_mem = [[r.randrange(5), r.choice([0, 1, r.randrange(50)])] for _ in range(r.choice([0, 2]))]
+    pre_arch = [[r.randrange(5), r.choice([0, 2, r.randrange(50)])] for _ in range(r.choice([0, 3]))]
     return dict(kind=kind, pre_mem=pre_mem, pre_arch=pre_arch), ops
 
 
 def K(k): return 'k%d' % k          # keys every backend can store
+
+
+def PV(v):
+    """value number -> Python value: None and falsy values are legitimate contents too"""
+    return {0: None, 1: 0, 2: '', 3: 0.0}.get(v, v)
+
+
+def VN(x):
+    """Python value -> value number (what the model holds)"""
+    if x is None: return 0
+    if x == '' and isinstance(x, str): return 2
+    if isinstance(x, float) and x == 0.0: return 3
+    if x == 0: return 1
+    return x
 
 
 def run_trace(cfg, ops):
@@ -55,15 +69,15 @@ def run_trace(cfg, ops):
         def mk(contents=None, kind=None):
             narch[0] += 1
             a = new_archive(kind or cfg['kind'], tmp, narch[0])
-            for k, v in (contents or []): a[K(k)] = v
+            for k, v in (contents or []): a[K(k)] = PV(v)
             return a
         a0 = mk(cfg['pre_arch'])
         c = kcache(archive=a0)
-        for k, v in cfg['pre_mem']: c[K(k)] = v
+        for k, v in cfg['pre_mem']: c[K(k)] = PV(v)
         def pairs(d):
             if isinstance(d, null_archive): return None
             items = d.__asdict__().items() if hasattr(d, '__asdict__') else d.items()
-            return sorted([int(k[1:]), v] for k, v in items)
+            return sorted([int(k[1:]), VN(v)] for k, v in items)
         def lastwins(l):
             d = {}
             for k, v in l: d[k] = v
@@ -77,7 +91,7 @@ def run_trace(cfg, ops):
             line = None
             exc = None
             try:
-                if kind == 'put': line = dict(op='put', k=op[1], v=op[2]); c[K(op[1])] = op[2]
+                if kind == 'put': line = dict(op='put', k=op[1], v=op[2]); c[K(op[1])] = PV(op[2])
                 elif kind == 'del': line = dict(op='del', k=op[1]); del c[K(op[1])]
                 elif kind == 'pop': line = dict(op='pop', k=op[1]); c.pop(K(op[1]))
                 elif kind == 'clearMem': line = dict(op='clearMem'); c.clear()
@@ -99,7 +113,7 @@ def run_trace(cfg, ops):
                 elif kind in ('aput', 'adel'):
                     if isinstance(c.archive, null_archive):
                         recs.append(dict(i=i, op=op, line=None)); continue
-                    if kind == 'aput': line = dict(op='aput', k=op[1], v=op[2]); c.archive[K(op[1])] = op[2]
+                    if kind == 'aput': line = dict(op='aput', k=op[1], v=op[2]); c.archive[K(op[1])] = PV(op[2])
                     else:
                         line = dict(op='adel', k=op[1])
                         if cfg['kind'] == 'dir' and K(op[1]) not in c.archive:
